@@ -72,6 +72,7 @@ func main() {
 		tier := fs.String("tier", os.Getenv("VERIF_TIER"), "quick|thorough")
 		runs := fs.Int("runs", 0, "override the number of runs")
 		noEvidence := fs.Bool("no-evidence", false, "do not write the evidence file")
+		fs.IntVar(&runsFrom, "from", 0, "first run index (with --runs: explore a slice of the run space)")
 		if len(os.Args) < 3 {
 			infra("check needs a property id")
 		}
